@@ -85,4 +85,21 @@ theorem outputsWith_good (same : Placement → Placement → Bool) (Good : Place
       · exact ⟨fun p hp => hl p (List.mem_filter.mp hp).1, fun p hp => hn p (List.mem_filter.mp hp).1⟩
       · exact ih ⟨s.next, s.next, false⟩ hn hn hd' o ho
 
+/-- With every statement of the skeleton present, the interpreted render is `renderWith`. -/
+theorem renderShaped_std (same : Placement → Placement → Bool) (s : State) :
+    renderShaped ⟨true, true, true, true, true, true, true, []⟩ same s = renderWith same s := by
+  unfold renderShaped renderWith
+  simp only [Bool.true_and, if_true]
+  congr 2
+  · apply List.filter_congr
+    intro p _
+    cases s.refresh <;> cases (s.next.any fun p2 => same p p2) <;> rfl
+  · apply List.filter_congr
+    intro p _
+    cases ((if s.refresh = true then [] else s.last).any fun p2 => same p p2) <;> rfl
+
+theorem stepShaped_std (same : Placement → Placement → Bool) (s : State) (op : Op) :
+    stepShaped ⟨true, true, true, true, true, true, true, []⟩ same s op = stepWith same s op := by
+  cases op <;> simp only [stepShaped, stepWith, renderShaped_std]
+
 end VaxisModel.Lemmas.Placements
